@@ -193,6 +193,57 @@ def work_pep_roundtrip(bins, strings):
     return dict(n=n, bad=bad)
 
 
+def gen_pep_long(rng):
+    nums = [0, 1, 2, 3, 4, 5, 9, 10, 11, 2 ** 31, 2 ** 32 - 1]
+    rel = tuple(rng.choice(nums) for _ in range(rng.choice([4, 5, 5, 6, 8])))
+    if rng.random() < 0.5:
+        rel = tuple(range(1, len(rel) + 1)) if rng.random() < 0.5 else rel[:3] + tuple(sorted(rel[3:], reverse=True))
+    v = dict(epoch=rng.choice([0, 0, 1]), release=rel, pre=rng.choice([None, None, ("a", 1), ("rc", 2)]), post=rng.choice([None, None, 3]), dev=rng.choice([None, None, 4]),
+             local=rng.choice([None, None, ("abc", 7)]))
+    return P.normal(v)
+
+
+def work_pep_long(bins, strings):
+    """PEP 440 with more than three release numbers: outside the round-trip clause, inside "every rendering is a fixed point" and
+    "a numeric field is never silently replaced by another number" """
+    import re as _re
+    pr = core.worker_probe(bins)
+    bad = []
+    n = 0
+    for p in strings:
+        pv = P.parse(p)
+        case = dict(kind="peplong", input=p)
+        k1, out = _res(call(pr, p, "pep440", "pep440"))
+        n += 1
+        if k1 == "panic":
+            bad.append(("panic@" + out.split(":")[0], "render %r panicked: %s" % (p, out), case))
+            continue
+        if k1 == "ok":
+            ov = P.parse(out)
+            if ov is None or P.key_pep440(ov) != P.key_pep440(pv):
+                bad.append(("conversion-differs", "render %r -f pep440 --output-format pep440 printed %r: not the same version (release numbers %r)" % (p, out, pv["release"]), case))
+            else:
+                k2, out2 = _res(call(pr, out, "pep440", "pep440"))
+                n += 1
+                if k2 != "ok" or out2 != out:
+                    bad.append(("pep440-rendering-not-fixed-point", "%r (from %r) re-renders as %r" % (out, p, out2), case))
+        k3, q = _res(call(pr, p, "pep440", "semver"))
+        n += 1
+        if k3 == "ok":
+            if S.parse(q, allow_v=False) is None:
+                bad.append(("conversion-output-malformed", "render %r -> semver gave %r" % (p, q), case))
+                continue
+            ids = [int(x) for x in _re.findall(r"(?<![A-Za-z0-9])\d+(?![A-Za-z0-9])", q.split("+")[0])]
+            it = iter(ids)
+            if not all(any(x == y for y in it) for x in pv["release"]):
+                bad.append(("conversion-differs", "render %r -> semver gave %r: the release numbers %r do not reappear in their order" % (p, q, pv["release"]), case))
+            k4, q2 = _res(call(pr, q, "semver", "semver"))
+            n += 1
+            if k4 != "ok" or q2 != q:
+                bad.append(("semver-rendering-not-fixed-point", "%r (rendered from %r) re-renders as %r" % (q, p, q2), case))
+    return dict(n=n, bad=bad)
+
+
 def work_semver_fixed(bins, strings):
     """arbitrary accepted SemVer -> PEP 440 rendering must be a fixed point and valid."""
     pr = core.worker_probe(bins)
@@ -328,6 +379,12 @@ def run(ctx):
         ctx.evaluations += r["n"]
         ctx.count("canonical_conversions", r["n"])
         allbad += r["bad"]
+    plong = sorted(set(gen_pep_long(rng) for _ in range(3000 if quick else 60000)))
+    for r in core.pmap(work_pep_long, [(ctx.bins, p) for p in core.split_even(plong, 16)]):
+        ctx.evaluations += r["n"]
+        ctx.count("pep440_long_release_conversions", r["n"])
+        for sig, why, case in r["bad"]:
+            ctx.refute(sig, why, case)
     for r in core.pmap(work_pep_roundtrip, [(ctx.bins, p) for p in core.split_even(peps, 32)]):
         ctx.evaluations += r["n"]
         ctx.count("pep440_roundtrip_steps", r["n"])
@@ -399,7 +456,7 @@ def replay(ctx, doc):
     if k == "canonical":
         r = work_canonical(ctx.bins, [c["fields"]])
     elif k == "pep":
-        r = work_pep_roundtrip(ctx.bins, [c["input"]])
+        r = work_pep_long(ctx.bins, [c["input"]]) if c.get("kind") == "peplong" else work_pep_roundtrip(ctx.bins, [c["input"]])
     elif k == "semver_fp":
         r = work_semver_fixed(ctx.bins, [c["input"]])
     elif k == "big":
